@@ -861,3 +861,516 @@ Proof.
   split; [exact (proj1 (assemble_spec p quorum i Hv))|]. split; [exact Hm|].
   intros keccak. unfold validate_members_hash. rewrite Hm, list_eqb_refl. reflexivity.
 Qed.
+
+(* ==================================================================
+   validateSignatures and verifyClaim for every assembled result / claim.
+   The hash function, the ecrecover precompile, the sortition pool's id -> operator map and the
+   "was signed by" relation are Section variables; the only cryptographic hypothesis is
+   [ecdsa_recovers] (Model/C40.v, Part 5); hashes are related through the preimage equalities
+   proved above (result_sig_preimage, eth_preimage_eq, result_members_preimage,
+   claim_preimage_eq), never through a property of the hash function other than its 32-byte
+   output length. *)
+(* ------------------------------------------------------------------ validateSignatures *)
+
+Definition len65 (c : bytes) : Prop := lenN c = 65.
+
+Lemma skipn_concat65 (pre : list bytes) rest :
+  Forall len65 pre -> skipn (N.to_nat (65 * lenN pre)) (concat pre ++ rest) = rest.
+Proof.
+  intros Hp. pose proof (concat_len65 _ Hp) as Hl.
+  replace (N.to_nat (65 * lenN pre)) with (length (concat pre)) by (unfold lenN in *; lia).
+  rewrite skipn_app, skipn_all, Nat.sub_diag. reflexivity.
+Qed.
+Lemma slice_chunk pre c rest :
+  Forall len65 pre -> lenN c = 65 ->
+  slice (concat (pre ++ c :: rest)) (65 * lenN pre) 65 = Some c.
+Proof.
+  intros Hp Hc. rewrite concat_app. cbn [concat]. unfold slice.
+  pose proof (concat_len65 _ Hp) as Hl.
+  replace ((0 <? 65) && (65 * lenN pre + 65 <=? lenN (concat pre ++ c ++ concat rest))) with true
+    by (rewrite !lenN_app; lia).
+  rewrite (skipn_concat65 _ _ Hp).
+  replace (N.to_nat 65) with (length c) by (unfold lenN in Hc; lia).
+  rewrite firstn_app, firstn_all, Nat.sub_diag, firstn_O, app_nil_r. reflexivity.
+Qed.
+
+Lemma oz_recover_ok ecrecover hash sig a :
+  lenN sig = 65 -> be_value (sig_s sig) <= half_n -> (sig_v sig = 27 \/ sig_v sig = 28) ->
+  ecrecover hash (sig_v sig) (sig_r sig) (sig_s sig) = a -> a <> 0 ->
+  oz_recover ecrecover hash sig = Some a.
+Proof.
+  intros Hl Hs Hv He Ha. unfold oz_recover. cbv zeta.
+  replace (negb (lenN sig =? 65)) with false by lia.
+  replace (half_n <? be_value (sig_s sig)) with false by lia.
+  replace (negb ((sig_v sig =? 27) || (sig_v sig =? 28))) with false by lia.
+  rewrite He. replace (a =? 0) with false by lia. reflexivity.
+Qed.
+
+Lemma sig_loop_true ecrecover hash : forall rest addrs_rest pre addrs_pre,
+  Forall len65 pre -> length addrs_pre = length pre ->
+  Forall2 (fun c a => lenN c = 65 /\ oz_recover ecrecover hash c = Some a) rest addrs_rest ->
+  sig_loop ecrecover (length rest) (lenN pre) hash (concat (pre ++ rest)) (addrs_pre ++ addrs_rest)
+  = Some true.
+Proof.
+  intros rest addrs_rest pre addrs_pre Hp Hlen H2. revert pre addrs_pre Hp Hlen.
+  induction H2 as [|c a rest' ar' [Hc Hr] Hrest IH]; intros pre addrs_pre Hp Hlen; [reflexivity|].
+  cbn [length sig_loop]. rewrite (slice_chunk _ _ _ Hp Hc), Hr.
+  replace (N.to_nat (lenN pre)) with (length addrs_pre) by (unfold lenN; lia).
+  rewrite nth_error_app_len, N.eqb_refl.
+  specialize (IH (pre ++ [c]) (addrs_pre ++ [a])).
+  rewrite <- !app_assoc in IH. cbn [app] in IH.
+  replace (lenN (pre ++ [c])) with (lenN pre + 1) in IH by (rewrite lenN_app; reflexivity).
+  apply IH.
+  - apply Forall_app. split; [assumption | constructor; [exact Hc | constructor]].
+  - rewrite !app_length. cbn [length]. lia.
+Qed.
+
+Definition seat_id (members : list N) (k : N) : N := nth (N.to_nat (k - 1)) members 0.
+Lemma seat_id_nth_error members k :
+  1 <= k <= lenN members -> nth_error members (N.to_nat (k - 1)) = Some (seat_id members k).
+Proof. intros H. apply nth_error_nth'. unfold lenN in H. lia. Qed.
+Lemma signing_ids_ok members signing :
+  Forall (fun s => 1 <= s <= lenN members) signing ->
+  signing_ids members signing = Some (map (seat_id members) signing).
+Proof.
+  induction 1 as [|s t Hs Ht IH]; [reflexivity|]. cbn [signing_ids map].
+  replace (s =? 0) with false by lia. rewrite (seat_id_nth_error _ _ Hs), IH. reflexivity.
+Qed.
+Lemma Forall2_map_same {A B C} (R : B -> C -> Prop) (f : A -> B) (g : A -> C) l :
+  (forall x, In x l -> R (f x) (g x)) -> Forall2 R (map f l) (map g l).
+Proof.
+  induction l as [|x t IH]; intros H; cbn [map]; constructor.
+  - apply H. left; reflexivity.
+  - apply IH. intros y Hy. apply H. right; assumption.
+Qed.
+
+Section Signatures.
+  Variable keccak : bytes -> bytes.
+  Variable ecrecover : bytes -> N -> bytes -> bytes -> N.
+  Variable operator_of : N -> N.
+  Variable signed : N -> bytes -> bytes -> Prop.
+  Hypothesis keccak_len : forall b, lenN (keccak b) = 32.
+  Hypothesis ecdsa_ok : ecdsa_recovers ecrecover signed.
+
+  (* one signature: signed over the client's prefixed hash => OZ recover under the contract's *)
+  Lemma signed_recovers addr pre sig :
+    signed addr (keccak (client_eth_preimage (keccak pre))) sig -> lenN sig = 65 ->
+    oz_recover ecrecover (eth_signed_hash keccak (keccak pre)) sig = Some addr.
+  Proof.
+    intros Hs Hl. rewrite (eth_preimage_eq _ (keccak_len pre)) in Hs.
+    destruct (ecdsa_ok _ _ _ Hs Hl) as (H1 & H2 & H3 & H4).
+    apply oz_recover_ok; assumption.
+  Qed.
+
+  Variables (p : params) (quorum : N) (i : dkg_in).
+  Hypothesis Hv : valid_in p quorum i.
+  Hypothesis Hsigned : supporters_signed keccak operator_of signed i.
+
+  Lemma result_signatures_valid :
+    validate_signatures keccak ecrecover operator_of (i_chainid i) (i_start i)
+      (a_pubkey (model_result i)) (a_misbehaved (model_result i)) (a_sigs (model_result i))
+      (a_signing (model_result i)) (a_members (model_result i)) = Some true.
+  Proof.
+    destruct (result_sorted_in_range p quorum i Hv) as (_ & _ & _ & Hsf).
+    pose proof (sigs65 p quorum i Hv) as H65.
+    destruct (sigs_chain_format_ok _ H65) as [_ Hlen].
+    unfold validate_signatures. cbv zeta.
+    set (hash := eth_signed_hash keccak _).
+    cbn [model_result a_signing a_members a_sigs] in *.
+    set (keys := sortN (map fst (i_sigs i))) in *.
+    rewrite (signing_ids_ok _ _ Hsf).
+    replace (N.to_nat (lenN (concat (chunks (i_sigs i) keys)) / 65))
+      with (length (chunks (i_sigs i) keys)).
+    2:{ rewrite Hlen. unfold chunks, keys. rewrite map_length.
+        pose proof (lenN_sortN (map fst (i_sigs i))) as Hk. rewrite lenN_map in Hk.
+        unfold lenN in *. lia. }
+    apply (sig_loop_true ecrecover hash (chunks (i_sigs i) keys)
+             (map operator_of (map (seat_id (i_members i)) keys)) [] []);
+      [constructor | reflexivity |].
+    unfold chunks. rewrite map_map. apply Forall2_map_same. intros k Hk.
+    rewrite Forall_forall in Hsf. pose proof (Hsf _ Hk) as Hrange.
+    assert (Hin : In (k, assoc k (i_sigs i)) (i_sigs i)).
+    { apply assoc_in. eapply Permutation_in; [apply sortN_perm | exact Hk]. }
+    pose proof (H65 _ _ Hin) as Hl. split; [exact Hl|].
+    destruct (Hsigned _ _ _ Hin (seat_id_nth_error _ _ Hrange)) as (misb' & pre & Hp & Hpre & Hs).
+    rewrite (result_sig_preimage p quorum i Hv misb' Hp) in Hpre. inversion Hpre; subst pre; clear Hpre.
+    apply signed_recovers; assumption.
+  Qed.
+End Signatures.
+
+(* ------------------------------------------------------------------ inactivity claims: verifyClaim *)
+
+Lemma dedup_In l : forall seen x, In x (dedup l seen) <-> In x l /\ ~ In x seen.
+Proof.
+  induction l as [|y t IH]; intros seen x; cbn [dedup In]; [tauto|].
+  destruct (memN y seen) eqn:E.
+  - apply memN_In in E. rewrite IH. split; [tauto|]. intros [[->|H] Hn]; [contradiction | tauto].
+  - assert (Hy : ~ In y seen) by (intros H; apply memN_In in H; congruence).
+    cbn [In]. rewrite IH. cbn [In]. split.
+    + intros [->|[H Hn]]; [tauto|]. split; [tauto|]. intros Hs. apply Hn. right; assumption.
+    + intros [[->|H] Hn]; [left; reflexivity|].
+      destruct (N.eq_dec y x) as [->|Hne]; [left; reflexivity|]. right. split; [assumption|].
+      intros [->|Hs]; [congruence | contradiction].
+Qed.
+Lemma dedup_NoDup l : forall seen, NoDup (dedup l seen).
+Proof.
+  induction l as [|y t IH]; intros seen; cbn [dedup]; [constructor|].
+  destruct (memN y seen); [apply IH|]. constructor; [|apply IH].
+  rewrite dedup_In. intros [_ Hn]. apply Hn. left; reflexivity.
+Qed.
+Lemma members_indices_ok idx n :
+  idx <> [] -> StronglySorted N.lt idx -> Forall (fun m => 1 <= m <= n) idx -> lenN idx <= n ->
+  validate_members_indices idx n = true.
+Proof.
+  intros Hne Hs Hf Hl. unfold validate_members_indices.
+  rewrite (strictly_increasing_of_sorted _ Hs).
+  pose proof (nth0_Forall _ idx 0 Hne Hf) as H0. pose proof (last_Forall _ idx 0 Hne Hf) as Hla.
+  cbv beta in H0, Hla.
+  assert (0 < lenN idx) by (destruct idx; [congruence | rewrite lenN_cons; lia]).
+  lia.
+Qed.
+Lemma range_count n (l : list N) : NoDup l -> (forall x, In x l -> 1 <= x <= n) -> lenN l <= n.
+Proof.
+  intros Hn Hr. pose proof (disjoint_count n l [] Hn (NoDup_nil _)) as H.
+  rewrite lenN_nil in H. rewrite <- (N.add_0_r (lenN l)). apply H; auto. intros x [].
+Qed.
+(* NewClaimPreimage: sorted, unique, same elements *)
+Lemma new_claim_inactive_spec raw :
+  StronglySorted N.lt (new_claim_inactive raw) /\
+  (forall x, In x (new_claim_inactive raw) <-> In x raw) /\
+  (raw <> [] -> new_claim_inactive raw <> []).
+Proof.
+  unfold new_claim_inactive. split; [apply sortN_nodup_lt, dedup_NoDup|]. split.
+  - intros x. split; intros H.
+    + apply (Permutation_in _ (sortN_perm _)) in H. apply dedup_In in H. tauto.
+    + apply (Permutation_in _ (Permutation_sym (sortN_perm _))). apply dedup_In. split; [assumption | intros []].
+  - intros Hne Hs. destruct raw as [|x t]; [congruence|].
+    assert (Hl : lenN (sortN (dedup (x :: t) [])) = 0) by (rewrite Hs; reflexivity).
+    rewrite lenN_sortN in Hl. cbn [dedup memN existsb] in Hl. rewrite lenN_cons in Hl. lia.
+Qed.
+
+Section Claim.
+  Variables (thr : N) (c : claim_in).
+  Hypothesis Hc : valid_claim thr c.
+  Let keys := sortN (map fst (c_sigs c)).
+  Definition model_claim : claim :=
+    {| k_wallet := c_wallet c; k_inactive := new_claim_inactive (c_raw c); k_hbf := c_hbf c;
+       k_sigs := concat (chunks (c_sigs c) (sortN (map fst (c_sigs c))));
+       k_signing := sortN (map fst (c_sigs c)) |}.
+  Lemma claim_sigs65 : forall k s, In (k, s) (c_sigs c) -> lenN s = 65.
+  Proof. destruct Hc as (_ & _ & _ & _ & Hs & _). intros k s H. apply Hs in H. tauto. Qed.
+  Lemma assemble_claim_spec :
+    assemble_claim (c_wallet c) (new_claim_inactive (c_raw c)) (c_sigs c) (c_hbf c) = Ok model_claim.
+  Proof.
+    unfold assemble_claim. destruct (sigs_chain_format_ok _ claim_sigs65) as [-> _]. reflexivity.
+  Qed.
+  Lemma claim_keys_sorted_range :
+    StronglySorted N.lt keys /\ Forall (fun m => 1 <= m <= c_nmembers c) keys.
+  Proof.
+    destruct Hc as (_ & _ & _ & Hnd & Hs & _). split; [apply sortN_nodup_lt; assumption|].
+    eapply Permutation_Forall; [symmetry; apply sortN_perm|]. rewrite Forall_forall.
+    intros k Hk. apply assoc_in in Hk. apply Hs in Hk. tauto.
+  Qed.
+  Lemma claim_static_ok : verify_claim_static thr model_claim (c_nmembers c) = true.
+  Proof.
+    pose proof Hc as (_ & Hne & Hr & Hnd & Hs & Ht & Hthr & H1 & _).
+    destruct (new_claim_inactive_spec (c_raw c)) as (Hsi & Hin & Hnei).
+    destruct claim_keys_sorted_range as (Hks & Hkf).
+    destruct (sigs_chain_format_ok _ claim_sigs65) as [_ Hlen].
+    assert (Hkl : lenN keys = lenN (c_sigs c)) by (unfold keys; rewrite lenN_sortN; apply lenN_map).
+    assert (Hkn : lenN keys <= c_nmembers c).
+    { apply range_count; [apply sorted_lt_NoDup; assumption | rewrite <- Forall_forall; assumption]. }
+    unfold verify_claim_static. cbn [model_claim k_inactive k_sigs k_signing]. fold keys in Hlen |- *.
+    rewrite members_indices_ok; [| auto | assumption | | ].
+    - rewrite members_indices_ok; [| | assumption | assumption | assumption].
+      + rewrite Hlen. lia.
+      + intros E. rewrite E, lenN_nil in Hkl. lia.
+    - rewrite Forall_forall. intros x Hx. apply Hr, Hin, Hx.
+    - apply range_count; [apply sorted_lt_NoDup; assumption | intros x Hx; apply Hr, Hin, Hx].
+  Qed.
+End Claim.
+
+(* the signature loop of verifyClaim *)
+Lemma claim_sig_loop_ok ecrecover operator_of hash members sender :
+  forall restk restc prek prec seen,
+  Forall len65 prec -> length prek = length prec ->
+  Forall2 (fun k c => lenN c = 65 /\ 1 <= k <= lenN members /\
+                      oz_recover ecrecover hash c = Some (operator_of (seat_id members k)))
+          restk restc ->
+  claim_sig_loop ecrecover (length restc) (lenN prec) hash (concat (prec ++ restc)) (prek ++ restk)
+                 (map operator_of members) sender seen
+  = Some (seen || existsb (fun k => sender =? operator_of (seat_id members k)) restk).
+Proof.
+  intros restk restc prek prec seen Hp Hlen H2. revert prek prec seen Hp Hlen.
+  induction H2 as [|k c rk rc (Hc & Hk & Hr) Hrest IH]; intros prek prec seen Hp Hlen.
+  - cbn [length claim_sig_loop existsb]. rewrite orb_false_r. reflexivity.
+  - cbn [length claim_sig_loop existsb].
+    replace (N.to_nat (lenN prec)) with (length prek) by (unfold lenN; lia).
+    rewrite nth_error_app_len, (slice_chunk _ _ _ Hp Hc), Hr.
+    replace (k =? 0) with false by lia.
+    rewrite nth_error_map, (seat_id_nth_error _ _ Hk). cbn [option_map]. rewrite N.eqb_refl.
+    specialize (IH (prek ++ [k]) (prec ++ [c])).
+    rewrite <- !app_assoc in IH. cbn [app] in IH.
+    replace (lenN (prec ++ [c])) with (lenN prec + 1) in IH by (rewrite lenN_app; reflexivity).
+    rewrite IH.
+    + rewrite orb_assoc. reflexivity.
+    + apply Forall_app. split; [assumption | constructor; [exact Hc | constructor]].
+    + rewrite !app_length. cbn [length]. lia.
+Qed.
+Lemma Forall2_map_r_same {A B} (R : A -> B -> Prop) (g : A -> B) l :
+  (forall x, In x l -> R x (g x)) -> Forall2 R l (map g l).
+Proof.
+  intros H. rewrite <- (map_id l) at 1. apply Forall2_map_same. exact H.
+Qed.
+
+Section ClaimSignatures.
+  Variable keccak : bytes -> bytes.
+  Variable ecrecover : bytes -> N -> bytes -> bytes -> N.
+  Variable operator_of : N -> N.
+  Variable signed : N -> bytes -> bytes -> Prop.
+  Hypothesis keccak_len : forall b, lenN (keccak b) = 32.
+  Hypothesis ecdsa_ok : ecdsa_recovers ecrecover signed.
+  Variables (thr : N) (c : claim_in) (members : list N) (sender : N).
+  Hypothesis Hc : valid_claim thr c.
+  Hypothesis Hmem : lenN members = c_nmembers c.
+  Hypothesis Hsigned : claim_supporters_signed keccak operator_of signed c members.
+  (* msg.sender is the operator of one of the supporters (I:162) *)
+  Hypothesis Hsender : exists k s id, In (k, s) (c_sigs c)
+    /\ nth_error members (N.to_nat (k - 1)) = Some id /\ sender = operator_of id.
+
+  Lemma claim_signatures_ok :
+    verify_claim_signatures keccak ecrecover operator_of (c_chainid c) (c_nonce c)
+      (wallet_x (be_bytes 32 (c_x c) ++ be_bytes 32 (c_y c)))
+      (wallet_y (be_bytes 32 (c_x c) ++ be_bytes 32 (c_y c))) (model_claim c) members sender = true.
+  Proof.
+    pose proof Hc as (_ & _ & _ & _ & _ & _ & _ & _ & Hx & Hy & _).
+    pose proof (claim_sigs65 thr c Hc) as H65.
+    destruct (claim_keys_sorted_range thr c Hc) as (_ & Hkf).
+    destruct (sigs_chain_format_ok _ H65) as [_ Hlen].
+    destruct (claim_preimage_eq (c_chainid c) (c_nonce c) (c_x c) (c_y c) _ _ _ _ _ _
+                Hx Hy (assemble_claim_spec thr c Hc) (pubkey_chain_format_ok _ _ Hx Hy)) as [Hpre _].
+    unfold verify_claim_signatures. cbv zeta.
+    set (hash := eth_signed_hash keccak _).
+    cbn [model_claim k_sigs k_signing].
+    set (keys := sortN (map fst (c_sigs c))) in *.
+    replace (N.to_nat (lenN (concat (chunks (c_sigs c) keys)) / 65))
+      with (length (chunks (c_sigs c) keys)).
+    2:{ rewrite Hlen. unfold chunks, keys. rewrite map_length.
+        pose proof (lenN_sortN (map fst (c_sigs c))) as Hk. rewrite lenN_map in Hk.
+        unfold lenN in *. lia. }
+    pose proof (claim_sig_loop_ok ecrecover operator_of hash members sender keys
+                  (chunks (c_sigs c) keys) [] [] false (Forall_nil _) eq_refl) as HL.
+    cbn [app orb] in HL. change (lenN (@nil bytes)) with 0 in HL.
+    match goal with |- match ?x with _ => _ end = true =>
+      assert (HX : x = Some (existsb (fun k => sender =? operator_of (seat_id members k)) keys))
+    end.
+    { apply HL. unfold chunks. apply Forall2_map_r_same. intros k Hk.
+      rewrite Forall_forall in Hkf. pose proof (Hkf _ Hk) as Hrange. rewrite <- Hmem in Hrange.
+      assert (Hin : In (k, assoc k (c_sigs c)) (c_sigs c)).
+      { apply assoc_in. eapply Permutation_in; [apply sortN_perm | exact Hk]. }
+      pose proof (H65 _ _ Hin) as Hl. split; [exact Hl|]. split; [exact Hrange|].
+      destruct (Hsigned _ _ _ Hin (seat_id_nth_error _ _ Hrange)) as (pre & Hp & Hs).
+      rewrite Hpre in Hp. inversion Hp; subst pre; clear Hp.
+      apply (signed_recovers keccak ecrecover signed keccak_len ecdsa_ok); assumption. }
+    rewrite HX; clear HX HL.
+    destruct Hsender as (k0 & s0 & id0 & Hin0 & Hid0 & ->).
+    assert (Hk0 : In k0 keys).
+    { apply (Permutation_in _ (Permutation_sym (sortN_perm _))).
+      apply (in_map fst) in Hin0. exact Hin0. }
+    replace (existsb _ keys) with true; [reflexivity|]. symmetry. apply existsb_exists.
+    exists k0. split; [exact Hk0|].
+    rewrite Forall_forall in Hkf. pose proof (Hkf _ Hk0) as Hrange. rewrite <- Hmem in Hrange.
+    rewrite (seat_id_nth_error _ _ Hrange) in Hid0. inversion Hid0. apply N.eqb_refl.
+  Qed.
+End ClaimSignatures.
+
+(* ------------------------------------------------------------------ executable form of valid_claim *)
+Lemma valid_claimb_sound thr c : valid_claimb thr c = true -> valid_claim thr c.
+Proof.
+  unfold valid_claimb. cbv zeta. intros H.
+  repeat (apply andb_true_iff in H as [H ?]).
+  unfold valid_claim. cbv zeta.
+  repeat match goal with |- _ /\ _ => split end; try lia; auto using nodupb_NoDup.
+  - intros E. rewrite E in *. discriminate.
+  - intros m Hm.
+    match goal with Hf : forallb (in_range _) (c_raw c) = true |- _ =>
+      rewrite forallb_forall in Hf; apply Hf in Hm end.
+    unfold in_range in Hm. lia.
+  - intros k s Hin.
+    match goal with Hf : forallb _ (c_sigs c) = true |- _ =>
+      rewrite forallb_forall in Hf; apply Hf in Hin end.
+    cbn [fst snd] in Hin. unfold in_range in Hin. lia.
+Qed.
+
+(* ------------------------------------------------------------------ statements used by Props (signatures, claims) *)
+Lemma assembled_result_valid keccak ecrecover operator_of signed :
+  (forall b, lenN (keccak b) = 32) -> ecdsa_recovers ecrecover signed ->
+  forall p quorum i, valid_in p quorum i -> supporters_signed keccak operator_of signed i ->
+  exists a, assemble i = Ok a /\ submit quorum i = Ok a /\
+    validate_fields p (a_pubkey a) (a_misbehaved a) (a_sigs a) (a_signing a) = Valid /\
+    validate_members_hash keccak (a_members a) (a_misbehaved a) (to_result_hash keccak a) = Some true /\
+    validate_signatures keccak ecrecover operator_of (i_chainid i) (i_start i)
+      (a_pubkey a) (a_misbehaved a) (a_sigs a) (a_signing a) (a_members a) = Some true.
+Proof.
+  intros Hk He p quorum i Hv Hs. exists (model_result i).
+  destruct (assemble_spec p quorum i Hv) as [Ha Hsub].
+  split; [exact Ha|]. split; [exact Hsub|]. split; [exact (result_fields_valid p quorum i Hv)|].
+  split.
+  - unfold validate_members_hash, to_result_hash.
+    rewrite (result_members_preimage p quorum i Hv), list_eqb_refl. reflexivity.
+  - exact (result_signatures_valid keccak ecrecover operator_of signed Hk He p quorum i Hv Hs).
+Qed.
+Lemma assembled_claim_static thr c : valid_claim thr c ->
+  exists k, assemble_claim (c_wallet c) (new_claim_inactive (c_raw c)) (c_sigs c) (c_hbf c) = Ok k /\
+    StronglySorted N.lt (k_inactive k) /\ (forall x, In x (k_inactive k) <-> In x (c_raw c)) /\
+    StronglySorted N.lt (k_signing k) /\ Permutation (k_signing k) (map fst (c_sigs c)) /\
+    k_sigs k = concat (map (fun s => assoc s (c_sigs c)) (k_signing k)) /\
+    verify_claim_static thr k (c_nmembers c) = true.
+Proof.
+  intros Hc. exists (model_claim c). split; [exact (assemble_claim_spec thr c Hc)|].
+  destruct (new_claim_inactive_spec (c_raw c)) as (H1 & H2 & _).
+  destruct (claim_keys_sorted_range thr c Hc) as (H3 & _).
+  split; [exact H1|]. split; [exact H2|]. split; [exact H3|]. split; [apply sortN_perm|].
+  split; [reflexivity|]. exact (claim_static_ok thr c Hc).
+Qed.
+Lemma empty_inactive_rejected thr k n : k_inactive k = [] -> verify_claim_static thr k n = false.
+Proof. intros H. unfold verify_claim_static, validate_members_indices. rewrite H. reflexivity. Qed.
+Lemma assembled_claim_signatures keccak ecrecover operator_of signed :
+  (forall b, lenN (keccak b) = 32) -> ecdsa_recovers ecrecover signed ->
+  forall thr c members sender, valid_claim thr c -> lenN members = c_nmembers c ->
+  claim_supporters_signed keccak operator_of signed c members ->
+  (exists k s id, In (k, s) (c_sigs c) /\ nth_error members (N.to_nat (k - 1)) = Some id
+                  /\ sender = operator_of id) ->
+  exists k pk,
+    assemble_claim (c_wallet c) (new_claim_inactive (c_raw c)) (c_sigs c) (c_hbf c) = Ok k /\
+    pubkey_chain_format (c_x c) (c_y c) = Some pk /\
+    verify_claim_static thr k (lenN members) = true /\
+    verify_claim_signatures keccak ecrecover operator_of (c_chainid c) (c_nonce c)
+                            (wallet_x pk) (wallet_y pk) k members sender = true.
+Proof.
+  intros Hk He thr c members sender Hc Hm Hs Hsend.
+  pose proof Hc as (_ & _ & _ & _ & _ & _ & _ & _ & Hx & Hy & _).
+  exists (model_claim c), (be_bytes 32 (c_x c) ++ be_bytes 32 (c_y c)).
+  split; [exact (assemble_claim_spec thr c Hc)|]. split; [exact (pubkey_chain_format_ok _ _ Hx Hy)|].
+  split; [rewrite Hm; exact (claim_static_ok thr c Hc)|].
+  exact (claim_signatures_ok keccak ecrecover operator_of signed Hk He thr c members sender Hc Hm Hs Hsend).
+Qed.
+
+(* ------------------------------------------------------------------ non-vacuity of the signature theorems:
+   a toy hash / signature scheme satisfying every hypothesis *)
+Definition toy_keccak (b : bytes) : bytes := be_bytes 32 (fold_left N.add b 7).
+Definition toy_operator (id : N) : N := id + 1000.
+(* R = signer address + digest, S = 1, V = 27 *)
+Definition toy_ecrecover (digest : bytes) (v : N) (r s : bytes) : N := be_value r - be_value digest.
+Definition toy_signed (addr : N) (digest sig : bytes) : Prop :=
+  addr <> 0 /\ sig_v sig = 27 /\ be_value (sig_s sig) = 1 /\ be_value (sig_r sig) = addr + be_value digest.
+Definition toy_sign (addr : N) (msg : bytes) : bytes :=
+  be_bytes 32 (addr + be_value (toy_keccak (client_eth_preimage msg))) ++ be_bytes 32 1 ++ [27].
+Example toy_keccak_len : forall b, lenN (toy_keccak b) = 32.
+Proof. intros b. unfold toy_keccak, lenN. rewrite be_bytes_length. reflexivity. Qed.
+Example toy_ecdsa : ecdsa_recovers toy_ecrecover toy_signed.
+Proof.
+  intros addr digest sig (Ha & Hv & Hs & Hr) _. unfold toy_ecrecover. rewrite Hs, Hr.
+  split; [vm_compute; discriminate|]. split; [left; exact Hv|]. split; [lia | exact Ha].
+Qed.
+
+Definition opt_bytes (o : option bytes) : bytes := match o with Some b => b | None => [] end.
+Definition ex_msg : bytes :=
+  toy_keccak (opt_bytes (client_sig_preimage 1 5 (2 ^ 255 + 7) [3] 1000)).
+Definition ex_in_signed : dkg_in :=
+  {| i_chainid := 1; i_start := 1000; i_x := 5; i_y := 2 ^ 255 + 7;
+     i_members := [70; 80; 70; 90]; i_submitter := 2;
+     i_operating := [4; 1; 2]; i_misbehaved := [3];
+     i_sigs := [(4, toy_sign (toy_operator 90) ex_msg); (1, toy_sign (toy_operator 70) ex_msg);
+                (2, toy_sign (toy_operator 80) ex_msg)] |}.
+Example ex_signed_valid : valid_in ex_params 3 ex_in_signed.
+Proof. apply valid_inb_sound. vm_compute. reflexivity. Qed.
+Example ex_supporters_signed : supporters_signed toy_keccak toy_operator toy_signed ex_in_signed.
+Proof.
+  intros k s id Hin Hid. exists [3], (opt_bytes (client_sig_preimage 1 5 (2 ^ 255 + 7) [3] 1000)).
+  split; [apply Permutation_refl|]. split; [vm_compute; reflexivity|].
+  cbn [ex_in_signed i_sigs i_members In] in Hin, Hid.
+  destruct Hin as [E|[E|[E|[]]]]; inversion E; subst k s; clear E;
+    vm_compute in Hid; inversion Hid; subst id; clear Hid;
+    (split; [vm_compute; discriminate|]); vm_compute; repeat split.
+Qed.
+(* the theorem applies to the example, and the contract check really runs to `true` on it *)
+Example ex_signatures_valid :
+  exists a, assemble ex_in_signed = Ok a /\
+    validate_signatures toy_keccak toy_ecrecover toy_operator 1 1000
+      (a_pubkey a) (a_misbehaved a) (a_sigs a) (a_signing a) (a_members a) = Some true.
+Proof.
+  destruct (assembled_result_valid toy_keccak toy_ecrecover toy_operator toy_signed toy_keccak_len
+              toy_ecdsa ex_params 3 ex_in_signed ex_signed_valid ex_supporters_signed)
+    as (a & Ha & _ & _ & _ & Hs).
+  exists a. split; assumption.
+Qed.
+(* ... and the transcribed check is not trivially true: a supporter's signature placed at another
+   seat, a wrong recovery byte, or a signature over another start block are not accepted *)
+Definition with_sigs (i : dkg_in) (m : list (N * bytes)) : dkg_in :=
+  {| i_chainid := i_chainid i; i_start := i_start i; i_x := i_x i; i_y := i_y i;
+     i_members := i_members i; i_submitter := i_submitter i; i_operating := i_operating i;
+     i_misbehaved := i_misbehaved i; i_sigs := m |}.
+Definition run_validate_signatures (start : N) (i : dkg_in) : option bool :=
+  match assemble i with
+  | Ok a => validate_signatures toy_keccak toy_ecrecover toy_operator (i_chainid i) start
+              (a_pubkey a) (a_misbehaved a) (a_sigs a) (a_signing a) (a_members a)
+  | _ => None
+  end.
+Example ex_signatures_checked :
+  run_validate_signatures 1000 ex_in_signed = Some true
+  /\ run_validate_signatures 1000
+       (with_sigs ex_in_signed [(4, toy_sign (toy_operator 70) ex_msg); (1, toy_sign (toy_operator 90) ex_msg);
+                                (2, toy_sign (toy_operator 80) ex_msg)]) = Some false
+  /\ run_validate_signatures 1000
+       (with_sigs ex_in_signed [(4, toy_sign (toy_operator 90) ex_msg); (1, toy_sign (toy_operator 70) ex_msg);
+                                (2, firstn 64 (toy_sign (toy_operator 80) ex_msg) ++ [0])]) = None
+  /\ run_validate_signatures 1001 ex_in_signed = Some false.
+Proof. vm_compute. repeat split. Qed.
+
+(* a claim: group of five, members 2 and 5 inactive (reported as 5, 2, 5), supporters 4, 1, 3 *)
+Definition ex_claim_pre : bytes :=
+  opt_bytes (client_claim_preimage 1 9 5 (2 ^ 255 + 7) [2; 5] true).
+Definition ex_claim_msg : bytes := toy_keccak ex_claim_pre.
+Definition ex_claim_members : list N := [70; 80; 70; 90; 60].
+Definition ex_claim_in : claim_in :=
+  {| c_chainid := 1; c_nonce := 9; c_x := 5; c_y := 2 ^ 255 + 7; c_raw := [5; 2; 5]; c_hbf := true;
+     c_wallet := repeat 1 32;
+     c_sigs := [(4, toy_sign (toy_operator 90) ex_claim_msg); (1, toy_sign (toy_operator 70) ex_claim_msg);
+                (3, toy_sign (toy_operator 70) ex_claim_msg)];
+     c_nmembers := 5; c_threshold := 3 |}.
+Example ex_claim_valid : valid_claim 3 ex_claim_in.
+Proof. apply valid_claimb_sound. vm_compute. reflexivity. Qed.
+Example ex_claim_signed :
+  claim_supporters_signed toy_keccak toy_operator toy_signed ex_claim_in ex_claim_members.
+Proof.
+  intros k s id Hin Hid. exists ex_claim_pre. split; [vm_compute; reflexivity|].
+  cbn [ex_claim_in c_sigs In] in Hin.
+  destruct Hin as [E|[E|[E|[]]]]; inversion E; subst k s; clear E;
+    vm_compute in Hid; inversion Hid; subst id; clear Hid;
+    (split; [vm_compute; discriminate|]); vm_compute; repeat split.
+Qed.
+Example ex_claim_verified :
+  exists k pk,
+    assemble_claim (c_wallet ex_claim_in) (new_claim_inactive (c_raw ex_claim_in)) (c_sigs ex_claim_in)
+                   (c_hbf ex_claim_in) = Ok k /\
+    pubkey_chain_format 5 (2 ^ 255 + 7) = Some pk /\
+    k_inactive k = [2; 5] /\ k_signing k = [1; 3; 4] /\
+    verify_claim_static 3 k 5 = true /\
+    verify_claim_signatures toy_keccak toy_ecrecover toy_operator 1 9 (wallet_x pk) (wallet_y pk) k
+                            ex_claim_members (toy_operator 90) = true /\
+    (* a sender that is not among the signers is refused *)
+    verify_claim_signatures toy_keccak toy_ecrecover toy_operator 1 9 (wallet_x pk) (wallet_y pk) k
+                            ex_claim_members (toy_operator 60) = false.
+Proof.
+  destruct (assembled_claim_signatures toy_keccak toy_ecrecover toy_operator toy_signed toy_keccak_len
+              toy_ecdsa 3 ex_claim_in ex_claim_members (toy_operator 90) ex_claim_valid eq_refl
+              ex_claim_signed) as (k & pk & Hk & Hpk & Hst & Hsig).
+  { exists 4, (toy_sign (toy_operator 90) ex_claim_msg), 90. split; [left; reflexivity|].
+    split; reflexivity. }
+  exists k, pk. split; [exact Hk|]. split; [exact Hpk|].
+  vm_compute in Hk. inversion Hk; subst k; clear Hk.
+  vm_compute in Hpk. inversion Hpk; subst pk; clear Hpk.
+  split; [reflexivity|]. split; [reflexivity|]. split; [exact Hst|]. split; [exact Hsig|].
+  vm_compute. reflexivity.
+Qed.
